@@ -31,5 +31,5 @@ CHECKS = {
     "C12": {"level": F, "units": [go("TestC12Enum", 16, 16), go("TestC12HB", 160, 5000), go("TestC12Setup", 240, 6000), go("TestC12Init", 96, 3000)]},
     "C10": {"level": E, "units": [go("TestC10", 320, 8000, race=True, confirm=False)], "replay_race": True},
     "C11": {"level": E, "units": [go("TestC11", 320, 8000, race=True, confirm=False)], "replay_race": True},
-    "C02": {"level": E, "units": [go("TestC02", 4800, 100000)]},
+    "C02": {"level": E, "units": [go("TestC02", 4800, 100000), go("TestC02Conc", 320, 6000, race=True, confirm=False)], "replay_race": False},
 }
